@@ -319,7 +319,7 @@ class Gen:
                         if self.chance(0.15):      # asynchronous placement (the simulated exchange treats it like any other)
                             acts[0]["async"] = True
                     if self.chance(p["p_raise"]):
-                        acts.append({"op": "raise"})
+                        acts.append({"op": self.rnd.choice(["raise", "raise", "realtime_raise"])})
                     script["%s|%d|%s" % (m["id"], u["pt"], phase)] = acts
         return script
 
@@ -359,6 +359,8 @@ class Gen:
         }
         if p["latencies"]:
             cfg.update(rnd.choice(p["latencies"]))
+        if self.chance(p.get("p_mw_subclass", 0.05)):
+            cfg["mw_subclass_first"] = True
         if self.chance(p["p_txlimit"]):
             cfg["transaction_limit"] = rnd.choice([0, 1, 2, 3, 5, None])     # None: nothing to enforce, still counted
         for m in markets:
